@@ -227,6 +227,21 @@ def typename_document(rng, info):
     return f"{{ {holder} {{ {a} {b} }} }}"
 
 
+def equal_subselection_document(rng, info):
+    """Textually equal sub-selections under different parent types (equal nodes in a location-free AST)."""
+    if len(info.objects) < 2:
+        return None
+    oi, oj = rng.sample(info.objects, 2)
+    common_leaf = [n for n in info.fields[oi] if n in info.fields[oj]
+                   and info.fields[oi][n][1] not in info.fields and info.fields[oj][n][1] not in info.fields]
+    if not common_leaf:
+        return None
+    sub = "{ " + " ".join(rng.sample(common_leaf, rng.randint(1, min(2, len(common_leaf))))) + " }"
+    holder = rng.choice(info.composites).lower()
+    alias = rng.choice(["x: ", ""])
+    return f"{{ {holder} {{ ... on {oi} {{ {alias}self {sub} }} ... on {oj} {{ {alias}self {sub} }} }} }}"
+
+
 def template_document(rng, info, g):
     """The same two fragments compared under mutually exclusive parents and under non-exclusive
     parents, in both visiting orders, optionally through further (mutually recursive) fragments."""
@@ -391,14 +406,15 @@ class DocEncoder:
                         raise OutOfFragment("selection on leaf")
                     out += self.sels(s.selection_set, nt)
             elif isinstance(s, InlineFragmentNode):
+                self.nfields += 1  # inline fragments share the id counter of fields
                 if s.type_condition is None:
                     t = parent
-                    out += [1, 0, 0]
+                    out += [1, self.nfields, 0, 0]
                 else:
                     t = self.schema.get_type(s.type_condition.name.value)
                     if t is None or not is_composite_type(t):
                         raise OutOfFragment("bad type condition")
-                    out += [1, 1, it.of(t.name)]
+                    out += [1, self.nfields, 1, it.of(t.name)]
                 out += self.sels(s.selection_set, t)
             elif isinstance(s, FragmentSpreadNode):
                 if getattr(s, "arguments", None):
@@ -585,6 +601,17 @@ def compare_documents(ck, m, items):
             continue
         want = out[1] == 1
         ck.count("spec_conflict" if want else "spec_mergeable")
+        # the same document as an AST without locations (textually equal selection sets are then equal nodes)
+        try:
+            st2, got2 = impl_conflicts(schema, parse(text, no_location=True))
+        except Exception as e:  # noqa: BLE001
+            st2, got2 = "raised", repr(e)[:100]
+        ck.count("location_free_variants")
+        if st2 != "ok" or got2 != want:
+            ck.violation(f"noloc:{text!r}",
+                         f"on the location-free AST the rule answers {st2}/{got2}, specification algorithm "
+                         f"{'finds a conflict' if want else 'finds none'}: {text!r}",
+                         dict(rep, impl=got2, model=want, parse_options="no_location=True"))
         if got != want:
             key = f"equiv:{text!r}"
             ck.violation(key,
@@ -698,6 +725,8 @@ def run(tier):
             g = DocGen(rng, info, nfr, mutate=0.03 if j % 10 == 9 else 0.0)
             if j == 7:
                 text = typename_document(rng, info) or g.document(2)
+            elif j == 8:
+                text = equal_subselection_document(rng, info) or g.document(2)
             elif j % 3 == 2 and nfr >= 2:
                 text = template_document(rng, info, g)
                 if text is None:
